@@ -11,7 +11,7 @@ import traceback
 sys.path.insert(0, os.path.dirname(os.path.abspath(__file__)))
 
 MODULES = {
-    "C01": "codec", "C02": "codec", "C16": "codec", "C04": "layout", "C09": "verifier", "C19": "sched", "C12": "reflection", "C07": "frontend", "C08": "frontend", "C11": "frontend", "C20": "frontend", "C06": "canc", "C10": "genmgr", "C17": "genmgr", "C05": "dbc", "C14": "dbc", "C15": "dbc",
+    "C01": "codec", "C02": "codec", "C16": "codec", "C04": "layout", "C09": "verifier", "C19": "sched", "C03": "cpp", "C13": "cpp", "C18": "cpp", "C12": "reflection", "C07": "frontend", "C08": "frontend", "C11": "frontend", "C20": "frontend", "C06": "canc", "C10": "genmgr", "C17": "genmgr", "C05": "dbc", "C14": "dbc", "C15": "dbc",
 }
 
 
